@@ -180,6 +180,17 @@ def build_case(kind, seed, nops):
         if r0.random() < 0.7:
             data = data.replace(b'</COLLADA>', b'<extra><technique profile="TOOL"><note>x</note></technique></extra>' * r0.randint(1, 2) + b'</COLLADA>')
             pre.append('file:top-level-extra')
+        if r0.random() < 0.4:
+            # every parameter of a shader is optional: other tools write <lambert/> for an effect that sets none
+            root = ET.fromstring(data)
+            nsq = root.tag.split('}')[0] + '}'
+            shaders = [s_ for t in root.iter(nsq + 'technique') for s_ in t if s_.tag.split('}')[1] in ('phong', 'lambert', 'blinn', 'constant')]
+            if shaders:
+                s_ = r0.choice(shaders)
+                for ch in list(s_):
+                    s_.remove(ch)
+                pre.append('file:empty-shader')
+                data = ET.tostring(root)
         mesh_extra = None
         if r0.random() < 0.5:
             # a mesh that carries an <extra> and (sometimes) no primitive at all; a primitive is added after loading
@@ -210,8 +221,11 @@ def build_case(kind, seed, nops):
                 il.addInput(0, 'VERTEX', '#' + pos[0])
                 nrows = len(g.sourceById[pos[0]]['POSITION'].data)
                 if nrows:
-                    g.primitives.append(g.createLineSet(numpy.array([0, nrows - 1], dtype=numpy.int32), il, None))
-                    pre.append('prims:append-lines')
+                    try:
+                        g.primitives.append(g.createLineSet(numpy.array([0, nrows - 1], dtype=numpy.int32), il, None))
+                        pre.append('prims:append-lines')
+                    except collada.common.DaeError as ex:     # the positions of this mesh are not X Y Z: the API refuses the edit
+                        core.note_skip('c04:append-lines', ex)
     else:
         doc = collada.Collada(os.path.join(DATA, kind))
         gen = modelgen.Gen(seed, dict(schema=True))
